@@ -1,7 +1,7 @@
 ------------------------------- MODULE MC_Resp -------------------------------
 EXTENDS Resp, Json
 Statuses == {200, 204, 302, 400, 401, 403, 404, 408, 412, 413, 418, 429, 431, 500, 502, 503, 504}
-StClasses == {"absent", "0", "5", "00", "17", "abc", "neg", "huge"}
+StClasses == {"absent", "0", "5", "00", "17", "abc", "neg", "huge", "wrap", "wrap5"}
 DtClasses == {"absent", "valid", "code0", "badb64", "badproto"}
 CErr == {"none", "valid", "nocode", "code_0", "code99", "notjson"}
 Bodies == {"good", "nomsg", "noterm", "empty", "garbage", "twomsgs"}
